@@ -116,6 +116,31 @@ pub fn judge(c: &Value, lang: bool) -> Option<Value> {
                             }
                             Err(e) => why.push(format!("`{}` failed: {}", src, e)),
                         }
+                        // the words with the width and the byte order in their name
+                        if matches!(w, 8 | 16 | 32 | 64) {
+                            let sfx = if oname == "big" { "be" } else { "le" };
+                            for (pfx, val) in [("i", vi), ("u", vu as i128)] {
+                                // the opposite byte-order flag is set first: these words must not look at it
+                                let src = format!("{} {} {}{}{}!", if oname == "big" { "little" } else { "big" }, val, pfx, w, sfx);
+                                let mut xs = fresh();
+                                match xs.eval(&src) {
+                                    Ok(()) => {
+                                        let got = xs.get_data(0).and_then(|c| c.bitstr().ok().map(|b| b.bits().collect::<Vec<u8>>()));
+                                        if got.as_deref() != Some(&wire[..]) { why.push(format!("`{}` packs {:?}, expected {:?}", src, got, wire)); }
+                                    }
+                                    Err(e) => why.push(format!("`{}` failed: {}", src, e)),
+                                }
+                                let mut xs = fresh();
+                                let src = format!("{} {} open-bitstr {} bits drop {}{}{}", if oname == "big" { "little" } else { "big" }, bit_lit(&buf), offset, pfx, w, sfx);
+                                match xs.eval(&src) {
+                                    Ok(()) => {
+                                        let got = xs.get_data(0).and_then(|c| c.to_xint().ok());
+                                        if got != Some(val) { why.push(format!("`{}{}{}` at bit offset {} reads {:?}, expected {}", pfx, w, sfx, offset, got, val)); }
+                                    }
+                                    Err(e) => why.push(format!("`{}` failed: {}", src, e)),
+                                }
+                            }
+                        }
                         // parse, signed (any width) and unsigned (up to 127 bits: a cell is an i128)
                         let mut xs = fresh();
                         let src = format!("{} {} open-bitstr {} bits drop {} int remain", oname, bit_lit(&buf), offset, w);
